@@ -22,6 +22,12 @@ def stub_number_formatting():
     format spec yields the placeholder text '<n>' instead of realising the number digit by digit (CrossHair would
     otherwise enumerate concrete values for every log/error message func_adl formats).  Only message texts are
     affected; str()/repr() are untouched.  Likewise an ast node formatted with an empty spec yields '<ast node>'."""
+    import logging
+
+    # logging is environment: CrossHair makes the clock symbolic, so building a LogRecord (timestamps) forks without end;
+    # func_adl's log calls never influence its results.
+    logging.disable(logging.CRITICAL)
+
     from crosshair.libimpl import builtinslib
     from crosshair.core import realize
 
